@@ -247,6 +247,23 @@ def run_scenario(scn, root, rng=None, ops=None, max_ops=40, fair_from=None):
     return done_ops, trace
 
 
+def merge_calls(events):
+    """an operation may put its question (or its cancel request) to the scheduler in several calls: what
+    counts is what it asked about altogether.  All `check` events of the operation become one, at the
+    place of the first; likewise the `cancel` events."""
+    out, at = [], {}
+    for ev in events:
+        if ev[0] in ("check", "cancel"):
+            if ev[0] in at:
+                old = out[at[ev[0]]]
+                out[at[ev[0]]] = (ev[0], tuple(sorted(set(old[1]) | set(ev[1])))) + (
+                    (tuple(sorted(set(old[2]) | set(ev[2]))),) if len(old) > 2 and len(ev) > 2 else ())
+                continue
+            at[ev[0]] = len(out)
+        out.append(ev)
+    return out
+
+
 def model_lines(scn, ops):
     def bits(l):
         return "".join(str(int(b)) for b in l)
@@ -362,7 +379,7 @@ def monitors(scn, trace):
         restart_round_seen = set()
         rounds_before = dict(restart_rounds)
         succeeded_at_stage = set(succeeded)
-        for ev in o.raw_events:
+        for ev in merge_calls(o.raw_events):
             kind = ev[0]
             if kind == "check":
                 # answers are delivered by this call: update the ledger
